@@ -42,6 +42,7 @@ type Node struct {
 	Recv       string // "" = inherit
 	GroupBy    int    // 0 inherit, 1 [x], 2 [], 3 ['...'], 4 [y, x]
 	Gw, Gi, Ri time.Duration
+	GwZero     bool // group_wait: 0s written out explicitly
 	Labels     map[string]string
 	Mute       []string
 	Active     []string
@@ -73,6 +74,8 @@ func (n *Node) yaml(ind string, sb *strings.Builder, root bool) {
 	}
 	if n.Gw != 0 {
 		w("group_wait: " + model.Duration(n.Gw).String())
+	} else if n.GwZero {
+		w("group_wait: 0s") // an explicit zero is an override like any other value ("notify at once")
 	}
 	if n.Gi != 0 {
 		w("group_interval: " + model.Duration(n.Gi).String())
@@ -143,6 +146,8 @@ func Inherit(p Opts, n *Node) Opts {
 	}
 	if n.Gw != 0 {
 		o.Gw = n.Gw
+	} else if n.GwZero {
+		o.Gw = 0
 	}
 	if n.Gi != 0 {
 		o.Gi = n.Gi
